@@ -153,6 +153,52 @@ def run_case(ctx, mon, labels, opts, tag, which, stale=None):
     judge_layers(ctx, recs[0], case, tag, which)
 
 
+def shrink_witness(ctx, mon, which, first_new, max_runs=120):
+    """Delta-debugging pass over the label list of the most recent witness of this shard: drop chunks of
+    labels while the same rule still fires.  Bounded by max_runs re-executions; the unshrunk case is kept."""
+    from vmon.core import Ctx
+
+    if not ctx.violations or ctx.extra.get("shrunk", 0) >= 2 or first_new >= len(ctx.violations):
+        return
+    w = ctx.violations[first_new]
+    case = w.get("case") or {}
+    labels = case.get("labels")
+    if not labels or len(labels) <= 6 or w.get("key") in (None, "compute-raised RecursionError"):
+        return
+    key = w["key"]
+    runs = [0]
+
+    def fails(cand):
+        runs[0] += 1
+        sub = Ctx(ctx.pid, ctx.tier, ctx.seed)
+        run_case(sub, mon, cand, case["options"], case.get("tag", ""), which, stale=case.get("stale"))
+        return any(v.get("key") == key for v in sub.violations), sub
+
+    cur = list(labels)
+    chunk = len(cur) // 2
+    best_sub = None
+    while chunk >= 1 and runs[0] < max_runs:
+        i = 0
+        while i < len(cur) and runs[0] < max_runs:
+            cand = cur[:i] + cur[i + chunk:]
+            if cand:
+                bad, sub = fails(cand)
+                if bad:
+                    cur, best_sub = cand, sub
+                    continue
+            i += chunk
+        chunk //= 2
+    if best_sub is not None and len(cur) < len(labels):
+        v = next(v for v in best_sub.violations if v.get("key") == key)
+        w["unshrunk_case"] = {"n_labels": len(labels), "labels": labels if len(labels) <= 40 else "regenerate from seed/shard"}
+        w["case"] = v["case"]
+        w["finding"] = v["finding"]
+        w["shrunk"] = {"from_labels": len(labels), "to_labels": len(cur), "re_executions": runs[0]}
+        # the other layers of the same unshrunk case are the same defect: keep the shrunk witness only
+        del ctx.violations[first_new + 1:]
+    ctx.extra["shrunk"] = ctx.extra.get("shrunk", 0) + 1
+
+
 def worker(ctx, shard, which):
     from vmon.mon_layout import LayoutMonitor
 
@@ -167,7 +213,10 @@ def worker(ctx, shard, which):
             if rng.random() < 0.2:
                 stale = rng.choice([{"maxPos": 200, "density": 0.3}, {"maxPos": 400, "algorithm": "simple", "density": 0.5}, {"maxPos": 120, "stubWidth": 4}, {"algorithm": "none"}])
                 tag += "+stale-nodes"
+            nv, nw = ctx.n_violations, len(ctx.violations)
             run_case(ctx, mon, labels, opts, tag, which, stale=stale)
+            if ctx.n_violations > nv:
+                shrink_witness(ctx, mon, which, nw)
     elif shard["kind"] == "clusters":
         # one mutually conflicting cluster of n labels, n = 1..200 (thorough: every n; quick: a ladder)
         ns = range(1, 201) if ctx.tier == "thorough" else [1, 2, 3, 5, 10, 25, 50, 100, 150, 200]
